@@ -26,6 +26,7 @@ structure Table where
   lbpComma : Nat      -- … of a comma token
   lbpChar : Option Nat   -- … of a *SexpChar (`none`: no arm, LeftBindingPower returns its error)
   lbpUint : Option Nat   -- … of a *SexpUint64
+  lbpNull : Option Nat   -- … of nil `()` (*SexpSentinel; `none`: no arm — before fix C06-02)
   starRbp : Nat       -- rbp used by starOpMunchRight
   ifCond : Nat        -- the three rbps of the `if` muncher
   ifThen : Nat
@@ -120,7 +121,7 @@ def lbp (T : Table) : Sx → Option Nat
   | .list _ => some 0
   | .hash => some 0
   | .other isUint _ => if isUint then T.lbpUint else T.lbpChar
-  | .null => none
+  | .null => T.lbpNull
 
 /-- splitColonTailSelectorSymbols -/
 def splitColonTail : List Sx → List Sx
@@ -381,6 +382,7 @@ def Table.generated : Table where
   lbpComma := lbpConst "SexpComma" ""
   lbpChar := lbpConst? "SexpChar"
   lbpUint := lbpConst? "SexpUint64"
+  lbpNull := lbpConst? "SexpSentinel"
   starRbp := Generated.InfixTable.starRbps.headD 0
   ifCond := Generated.InfixTable.ifRbps.getD 0 0
   ifThen := Generated.InfixTable.ifRbps.getD 1 0
